@@ -327,7 +327,19 @@ func goLdapSearch(frames [][]byte) (*ldap.SearchResult, error) {
 			}
 		}
 	}()
-	return lc.Search(ldap.NewSearchRequest("dc=a", 2, 0, 0, 0, false, "(cn=x)", nil, nil))
+	// a response that is not well-formed can make the client panic (go-ldap v3.4.6 indexes the children of a
+	// PartialAttribute without a length check): that is an answer about the response, not a failure of the checker
+	var res *ldap.SearchResult
+	var err error
+	func() {
+		defer func() {
+			if r := recover(); r != nil {
+				res, err = nil, fmt.Errorf("the go-ldap client panics while unpacking the response: %v", r)
+			}
+		}()
+		res, err = lc.Search(ldap.NewSearchRequest("dc=a", 2, 0, 0, 0, false, "(cn=x)", nil, nil))
+	}()
+	return res, err
 }
 
 func c04run(c *Ctx) {
